@@ -42,6 +42,9 @@ def fuse_consecutive_layers(mod: fx.GraphModule, first: Type[nn.Module], second:
     """
     # partially taken from: https://pytorch.org/tutorials/intermediate/fx_conv_bn_fuser.html
     modules = dict(mod.named_modules())
+    # pairs of layers already fused: if the same sequence of layers is invoked multiple times in the
+    # forward pass, the fusion function must be applied only once
+    fused = set()
     for node in mod.graph.nodes:
         if node.op != 'call_module':
             continue
@@ -52,12 +55,15 @@ def fuse_consecutive_layers(mod: fx.GraphModule, first: Type[nn.Module], second:
         if (is_second and is_prev_first):
             if len(node.args[0].users) > 1:
                 raise ValueError("The first layer of the pair to be fused has multiple users")
-            if in_place:
+            if (node.args[0].target, node.target) in fused:
+                pass
+            elif in_place:
                 fusion_fn(modules[node.args[0].target], modules[node.target])
             else:
                 new_first = fusion_fn(modules[node.args[0].target], modules[node.target])
                 assert isinstance(new_first, nn.Module)
                 replace_node_module(node.args[0], modules, new_first)
+            fused.add((node.args[0].target, node.target))
             node.replace_all_uses_with(node.args[0])
             mod.graph.erase_node(node)
     mod.delete_all_unused_submodules()
